@@ -93,4 +93,13 @@ def main(prop, tier):
             P2.append(["%s=%s" % (k, v) for k, v in d.items()])
         P = P2
     seqtrace.run_profiles(chk, prop, P, on)
+    # API-level traces: several storages, keys up to 30 KiB, all value shapes (TraceMap); the same property families
+    if prop in ("C02", "C03", "C10"):
+        n = 500 if tier == "quick" else 1500
+        mix = {"C02": dict(pput=45, prem=20, pget=27, pscan=0, piscan=0), "C03": dict(pput=40, prem=12, pget=0, pscan=40, piscan=0),
+               "C10": dict(pput=40, prem=12, pget=0, pscan=0, piscan=40)}[prop]
+        MP = [prof(71, nops=n, pool=30, pddl=8, **mix), prof(72, nops=n, pool=60, maxlen=2, alpha=8, pddl=8, **mix)]
+        if tier != "quick":
+            MP += [prof(73, nops=n, pool=40, maxlen=6, alpha=2, pddl=8, **mix), prof(74, nops=n, pool=25, pddl=8, **mix)]
+        seqtrace.run_map_profiles(chk, prop, MP, on)
     return chk.finish()
